@@ -200,6 +200,24 @@ class DependencyGraph:
             if not self.edges[waiter]:
                 del self.edges[waiter]
 
+    def remove_wait(self, waiter: str, resource: str) -> None:
+        """Waiter no longer waits for this resource."""
+        if waiter in self.edges:
+            self.edges[waiter] = [(b, r) for b, r in self.edges[waiter] if r != resource]
+            if not self.edges[waiter]:
+                del self.edges[waiter]
+
+    def retarget_resource(self, resource: str, owner: Optional[str]) -> None:
+        """Resource changed hands: waiters now wait on `owner` (None = it is free)."""
+        for waiter in list(self.edges.keys()):
+            self.edges[waiter] = [
+                (owner if r == resource else b, r)
+                for b, r in self.edges[waiter]
+                if r != resource or owner is not None
+            ]
+            if not self.edges[waiter]:
+                del self.edges[waiter]
+
     def detect_cycle(self) -> Optional[DeadlockInfo]:
         """
         Detect if there's a cycle (deadlock).
